@@ -118,6 +118,8 @@ CHECKS = {
         "legs": [
             {"test": "TestC20", "quick": {"checks": 600, "timeout": "15m"},
              "thorough": {"checks": 10000, "shards": 4, "timeout": "60m"}},
+            {"test": "TestC20_RateLimited", "quick": {"checks": 1, "timeout": "15m", "shrinktime": "1s"},
+             "thorough": {"checks": 10, "shards": 4, "timeout": "60m", "shrinktime": "1s"}},
         ],
     },
     "C06": {
@@ -148,6 +150,15 @@ CHECKS = {
              "thorough": {"checks": 4000, "shards": 4, "timeout": "60m"}},
             {"test": "TestC13_Arbitrary", "quick": {"checks": 400, "timeout": "15m"},
              "thorough": {"checks": 4000, "shards": 4, "timeout": "60m"}},
+        ],
+    },
+    "C05": {
+        "level": "exploration",
+        "assumptions": EXPLORATION_ASSUMPTIONS + ["reference states come from a separate lock-step run of the same lines on a fresh tracked client without user handlers (differential oracle: independent of the C13 model being exact)",
+                                                  "background handlers are checked in lock-step mode only; a multi-call snapshot is stable there because nothing else is in flight"],
+        "legs": [
+            {"test": "TestC05", "quick": {"checks": 300, "timeout": "15m"},
+             "thorough": {"checks": 3000, "shards": 4, "timeout": "60m"}},
         ],
     },
 }
